@@ -735,8 +735,8 @@ mutant('C14', 'c14-interval-drift', TIMING,
        'A interval:remaining', 'interval behaves like delay: ticks drift with the body')
 mutant('C14', 'c14-interval-stale-last', TIMING,
        "            await postpone()\n        last_time = time.now\n        yield last_time",
-       "            await postpone()\n        last_time = last_time + period\n        yield last_time",
-       'A interval:yields-fresh-clock', 'yields a computed instead of the current time')
+       "            await postpone()\n        yield last_time\n        last_time = time.now",
+       'A interval:yields-fresh-clock', 'yields the previous tick; the reference point includes the body time')
 mutant('C14', 'c14-interval-no-exceeded', TIMING,
        "        if remaining_delay < 0:\n            raise IntervalExceeded()\n        elif remaining_delay > 0:",
        "        if remaining_delay > 0:",
